@@ -136,7 +136,16 @@ P12 = {   # two parameters of one name: the use denotes the one evaluation binds
     "nonident": [("main.oal", 0, 10)],
     "may_be_rejected": True,
 }
-PROGRAMS = {"two-parameters-of-one-name": P12, "built-in-function-in-use": P11, "adjacent-identifier-tokens": P10, "uses-at-the-start-of-a-line": P9, "one-name-three-roles": P8, "modules-in-sub-directories": P7, "unqualified-import": P5, "nested-same-name-binders": P6, "single-module": P1, "two-modules": P2, "shadowing-and-reference": P3, "sibling-modules-same-shape": P4}
+P13 = {   # a qualifier spelled like a member of the module it names
+    "files": {"main.oal": 'use "item.oal" as item;\nlet a = item.item;\nlet b = item.other;\nres / on get -> <{ \'a a, \'b b }>;\n',
+              "item.oal": "let item = { 'i num };\nlet other = str;\n"},
+    "occ": [('main.oal', 0, 18, 'item', 'qdecl', 'q'), ('main.oal', 1, 4, 'a', 'decl', 'a'), ('main.oal', 1, 8, 'item', 'quse', 'q'), ('main.oal', 1, 13, 'item', 'use', 'lib.item'),
+            ('main.oal', 2, 4, 'b', 'decl', 'b'), ('main.oal', 2, 8, 'item', 'quse', 'q'), ('main.oal', 2, 13, 'other', 'use', 'lib.other'),
+            ('main.oal', 3, 22, 'a', 'use', 'a'), ('main.oal', 3, 28, 'b', 'use', 'b'),
+            ('item.oal', 0, 4, 'item', 'decl', 'lib.item'), ('item.oal', 1, 4, 'other', 'decl', 'lib.other')],
+    "nonident": [("main.oal", 1, 6)],
+}
+PROGRAMS = {"qualifier-spelled-like-a-member": P13, "two-parameters-of-one-name": P12, "built-in-function-in-use": P11, "adjacent-identifier-tokens": P10, "uses-at-the-start-of-a-line": P9, "one-name-three-roles": P8, "modules-in-sub-directories": P7, "unqualified-import": P5, "nested-same-name-binders": P6, "single-module": P1, "two-modules": P2, "shadowing-and-reference": P3, "sibling-modules-same-shape": P4}
 
 
 def relname(uri, root):
@@ -280,7 +289,7 @@ def run(rdir, want=("definition", "references", "rename")):
                     if any(a[0] == b[0] and a[1] == b[1] and a[3] > b[2] for a, b in zip(spans, spans[1:])):
                         probs.append("%s: rename of '%s' returns overlapping edits" % (pname, name))
                         continue
-                    if oldname == name:
+                    if oldname == name and isinstance(pr, dict) and "start" in pr and contains(pr, l, c):
                         exp_n = 1 + len(uses.get(bid, []))
                         if len(edits) != exp_n:
                             probs.append("%s: rename of '%s' at %s:%d:%d returns %d edits, expected %d (binder + uses)" % (pname, name, fn, l, c, len(edits), exp_n))
